@@ -844,3 +844,8 @@ def chk_cap(inp, c):
 
 
 M.add("estimator_capture", gen_cap, chk_cap, weight=3, min_held=150)
+
+
+# the repository's own tests as one more workload: contracts armed in situ (harness/observe.py)
+from harness import observe as _observe  # noqa: E402
+_observe.add_insitu_clause(M, ['domain.equalize_domains'], runtime)
